@@ -549,7 +549,7 @@ def as_view(t: torch.Tensor, mode: str):
     return t, t
 
 
-def riccati_np(A, B, c, Q, p, x0, ubar):
+def riccati_np(A, B, c, Q, p, x0, ubar, with_cond=False):
     """independent float64 Riccati recursion (delta formulation around the rolled-out nominal): K (T,nc,ns), k (T,nc)"""
     T, ns, nc = Q.shape[0], A.shape[-1], B.shape[-1]
     ub = np.zeros((T, nc)) if ubar is None else np.asarray(ubar, dtype=np.float64)
@@ -559,6 +559,7 @@ def riccati_np(A, B, c, Q, p, x0, ubar):
         xb[t + 1] = A[t] @ xb[t] + B[t] @ ub[t] + c[t]
     K, k = np.zeros((T, nc, ns)), np.zeros((T, nc))
     V, v = np.zeros((ns, ns)), np.zeros(ns)
+    conds = np.ones(T)
     for t in range(T - 1, -1, -1):
         F = np.concatenate([A[t], B[t]], axis=1)
         pb = Q[t] @ np.concatenate([xb[t], ub[t]]) + p[t]
@@ -567,38 +568,41 @@ def riccati_np(A, B, c, Q, p, x0, ubar):
         Qxx, Qxu, Qux, Quu = Qt[:ns, :ns], Qt[:ns, ns:], Qt[ns:, :ns], Qt[ns:, ns:]
         K[t] = -np.linalg.solve(Quu, Qux)
         k[t] = -np.linalg.solve(Quu, qt[ns:])
+        conds[t] = np.linalg.cond(Quu) if with_cond else 1.0
         V = Qxx + Qxu @ K[t]
         V = (V + V.T) / 2
         v = qt[:ns] + Qxu @ k[t]
-    return K, k
+    return (K, k, conds) if with_cond else (K, k)
 
 
 def gains_tolerance(r: "Ref", ubar, seed: int):
     """per-step error scales of (K_t, k_t): change under two random 1e-8 relative perturbations of all data
-    (a backward-stable recursion is allowed eps-sized ones) plus the size of the gains themselves"""
+    (a backward-stable recursion is allowed eps-sized ones) plus the size of the gains times the condition number of
+    the Quu actually factorised at this and the later steps (the error of those solves)"""
     rs = np.random.RandomState(seed % (2 ** 32))
     d = 1e-8
-    K0, k0 = riccati_np(r.A, r.B, r.c, r.Q, r.p, r.x0, ubar)
+    K0, k0, conds = riccati_np(r.A, r.B, r.c, r.Q, r.p, r.x0, ubar, with_cond=True)
+    cmax = np.maximum.accumulate(conds[::-1])[::-1]
     sK, sk = np.zeros(r.T), np.zeros(r.T)
-    for _ in range(2):
+    for _ in range(3):
         pert = lambda a: a * (1 + d * rs.uniform(-1, 1, a.shape))
         Qp = pert(r.Q)
         Qp = (Qp + np.swapaxes(Qp, -1, -2)) / 2
         K1, k1 = riccati_np(pert(r.A), pert(r.B), pert(r.c), Qp, pert(r.p), pert(r.x0), None if ubar is None else pert(np.asarray(ubar)))
         sK = np.maximum(sK, np.abs(K1 - K0).reshape(r.T, -1).max(axis=1) / d)
         sk = np.maximum(sk, np.abs(k1 - k0).reshape(r.T, -1).max(axis=1) / d)
-    return sK + np.abs(K0).reshape(r.T, -1).max(axis=1), sk + np.abs(k0).reshape(r.T, -1).max(axis=1)
+    return sK + cmax * np.abs(K0).reshape(r.T, -1).max(axis=1), sk + cmax * np.abs(k0).reshape(r.T, -1).max(axis=1)
 
 
 def expected_iterations(costs, steps: int, patience: int, decreasing: float, tol: float):
     """documented `ReduceToBason` semantics replayed on the recorded costs of the inner solves (independent of the
-    code): (#iterations the loop must have run, patience counter afterwards, fragile?) — fragile when a float
-    comparison is within rounding of its threshold"""
+    code; `steps` = the budget the stepper was built with, MPC.__init__ takes one off): returns
+    (index of the first iteration after which the loop has to stop or None, patience counter then, fragile?) —
+    fragile when a float comparison is within rounding of its threshold"""
     max_steps = steps - 1            # MPC.__init__: n-1 loops, 1 loop with gradient
-    last, pc, n, frag = float("inf"), 0, 0, False
-    for c in costs:
-        n += 1
-        stop = c < tol or n >= max_steps
+    last, pc, frag = float("inf"), 0, False
+    for i, c in enumerate(costs):
+        stop = c < tol or (i + 1) >= max_steps
         frag |= abs(c - tol) <= 1e-9 * (1 + abs(c))
         with np.errstate(all="ignore"):
             ratio = (np.float64(last) - np.float64(c)) / np.float64(c)
@@ -610,5 +614,27 @@ def expected_iterations(costs, steps: int, patience: int, decreasing: float, tol
         if pc >= patience:
             stop = True
         if stop:
-            break
-    return n, pc, frag
+            return i, pc, frag
+    return None, pc, frag
+
+
+def stepper_flags(losses, max_steps: int, patience: int, decreasing: float, tol: float, pc0: int = 0):
+    """documented `ReduceToBason` rules on a loss sequence after `reset()` with the patience counter at `pc0`:
+    (`continual()` after every step, final patience counter, fragile?) — independent of the code"""
+    last, pc, cont, frag, flags = float("inf"), pc0, True, False, []
+    for i, c in enumerate(losses):
+        if c < tol:
+            cont = False
+        if (i + 1) >= max_steps:
+            cont = False
+        with np.errstate(all="ignore"):
+            ratio = (np.float64(last) - np.float64(c)) / np.float64(c)
+        if np.isfinite(ratio):
+            frag |= abs(float(ratio) - decreasing) <= 1e-9 * (1 + abs(decreasing))
+        frag |= abs(c - tol) <= 1e-12 * (1 + abs(c))
+        pc = pc + 1 if bool(ratio < decreasing) else 0
+        last = c
+        if pc >= patience:
+            cont = False
+        flags.append(1 if cont else 0)
+    return flags, pc, frag
